@@ -9,6 +9,8 @@ An operation is a JSON list:
     ["del_key", key]            del section[key]   (first item whose session mnemonic matches key)
     ["set", key, name]          section[key] = item(name)  (SectionItems.set_item: replaces the first item
                                 whose session mnemonic matches key; documented to append when key is absent)
+    ["set_data"]                LASFile.set_data(las.data) without names (curves flavour): originals stay, session names are
+                                those of a from-scratch numbering
     ["get_add", name]           section.get(name, add=True): appends a new item named name unless the key is present
     ["set_ix", i, name]         section[i] = item(name)   (integer key: the item at position i is replaced)
     ["rci", i, name]            LASFile.replace_curve_item(i, CurveItem(name))   (curves flavour only, i >= 0)
@@ -90,6 +92,14 @@ def model_apply(m, op):
         m.delete(i)
         m.insert(i, op[2])
         return old, op[2]
+    if k == "set_data":
+        if n == 0:
+            raise LookupError(op)
+        fresh = NameModel(m.ci)
+        for orig in m.originals():
+            fresh.append(orig)
+        m.items = fresh.items
+        return None, None
     if k == "get_add":
         if model_find(m, op[1]) is not None:
             return None, None
@@ -305,6 +315,11 @@ class Driver(object):
             las.replace_curve_item(op[1], new)
         elif k == "set_ix":
             s[op[1]] = new
+        elif k == "set_data":
+            if las is None:
+                raise LookupError(op)
+            las.set_data(las.data)
+            return
         elif k == "get_add":
             present = self.find(op[1]) is not None
             got = s.get(op[1], add=True)
